@@ -321,3 +321,14 @@ impl Transition {
         *maintenance_counter += tour.maintenance_counter() + dist_between_end_depot_to_start_depot;
     }
 }
+
+// verification hooks: read-only access to the lookup table and the list of reusable cycles
+#[cfg(feature = "rssched_verif")]
+impl Transition {
+    pub fn verif_internals(&self) -> (Vec<(VehicleIdx, CycleIdx)>, Vec<CycleIdx>) {
+        let mut lookup: Vec<(VehicleIdx, CycleIdx)> =
+            self.cycle_lookup.iter().map(|(v, c)| (*v, *c)).collect();
+        lookup.sort();
+        (lookup, self.empty_cycles.clone())
+    }
+}
